@@ -208,8 +208,8 @@ package rapid
 // What a run of user code can do to a buffer-backed stream (only through drawBits/beginGroup/endGroup, whose
 // concrete contracts are proved in data.go): the unread buffer is a suffix of the old one, and on a persisting
 // stream every newly recorded word is the masked - hence not larger - word it consumed; groups stay well-formed.
-//@ define recWF(r) = 0 <= r.dataLen && forall(k, 0, len(r.groups), 0 <= r.groups[k].begin && r.groups[k].begin <= len(r.data) && (r.groups[k].end == -1 || r.groups[k].begin <= r.groups[k].end && r.groups[k].end <= len(r.data)) && implies(r.groups[k].discard, r.groups[k].end >= 0))
-//@ define bufRun(s) = arr(s.buf) == old(arr(s.buf)) && off(s.buf) + len(s.buf) == old(off(s.buf) + len(s.buf)) && len(s.buf) <= old(len(s.buf)) && s.persist == old(s.persist) && implies(s.persist, len(s.data) - old(len(s.data)) == old(len(s.buf)) - len(s.buf) && forall(k, old(len(s.data)), len(s.data), s.data[k] <= old(s.buf[k - len(s.data)])) && forall(k, 0, old(len(s.data)), s.data[k] == old(s.data[k])))
+//@ define recWF(r) = 0 <= r.dataLen && forall(k, 0, len(r.groups), 0 <= r.groups[k].begin && r.groups[k].begin <= len(r.data) && (r.groups[k].end == -1 || r.groups[k].begin <= r.groups[k].end && r.groups[k].end <= len(r.data)) && implies(r.groups[k].discard, r.groups[k].end >= 0) && implies(!r.groups[k].discard, r.groups[k].begin != r.groups[k].end))
+//@ define bufRun(s) = arr(s.buf) == old(arr(s.buf)) && off(s.buf) + len(s.buf) == old(off(s.buf) + len(s.buf)) && len(s.buf) <= old(len(s.buf)) && s.persist == old(s.persist) && implies(s.persist, len(s.data) - old(len(s.data)) == old(len(s.buf)) - len(s.buf) && forall(k, old(len(s.data)), len(s.data), s.data[k] <= old(s.buf[k - len(s.data)])) && forall(k, 0, old(len(s.data)), s.data[k] == old(s.data[k])) && (arr(s.data) == old(arr(s.data)) || fresh(arr(s.data))) && (arr(s.groups) == old(arr(s.groups)) || fresh(arr(s.groups))))
 //@ define streamRely(x) = implies(hasType(x, bufBitStream), recWF(deref(x, bufBitStream)) && bufRun(deref(x, bufBitStream)))
 
 //@ callback func(*T)
@@ -550,6 +550,7 @@ package rapid
 //@   ensures [C04,C10] result.s == s && result.tbLog == tbLog && result.tb != nil && arr(result.cleanups) == nil
 
 //@ func panicToError
+//@   ensures [assumed] implies(result != nil, result.traceback != "    <no error>\n")
 //@   ensures [C02] (result == nil) == (p == nil)
 //@   ensures [C02] implies(result != nil, fresh(result) && result.data == p)
 
@@ -560,6 +561,7 @@ package rapid
 //@   ensures [C02,C11] implies(result == nil, t.failed == "")
 //@   ensures [C02,C11] implies(result != nil && isInvalidData(result.data), t.failed == "")
 //@   ensures [C02] implies(result != nil, fresh(result))
+//@   ensures [C05] implies(result != nil, result.traceback != "    <no error>\n")
 //@   ensures drawn >= old(drawn)
 //@   ensures [C05] streamRely(t.s)
 //@   modifies t.failed, t.cleanups, elems(t.cleanups), t.ctx, t.cancelCtx, t.cleaning.v, t.draws, drawn, lockmode[addr(t.mu)], stream(t.s)
@@ -837,7 +839,7 @@ package rapid
 
 //@ func newBufBitStream
 //@   ensures [C04,C05] fresh(result) && arr(result.buf) == arr(buf) && off(result.buf) == off(buf) && len(result.buf) == len(buf)
-//@   ensures [C04,C05] len(result.data) == 0 && len(result.groups) == 0 && result.dataLen == 0 && result.persist == persist && arr(result.data) == nil
+//@   ensures [C04,C05] len(result.data) == 0 && len(result.groups) == 0 && result.dataLen == 0 && result.persist == persist && arr(result.data) == nil && arr(result.groups) == nil
 
 // prune/removeGroup: only ever delete words (C05 needs no more than that; the exact sequence spec is C04's)
 //@ func (*recordedBits).removeGroup
@@ -846,6 +848,7 @@ package rapid
 //@   ensures [C04,C05] implies(len(rec.data) == old(len(rec.data)), forall(k, 0, len(rec.data), rec.data[k] == old(rec.data[k])))
 //@   ensures [C04,C05] len(rec.groups) < old(len(rec.groups)) && rec.persist == old(rec.persist)
 //@   ensures [assumed] recWF(rec)
+//@   ensures [C04,C05] forall(k, 0, i, rec.groups[k].discard == old(rec.groups[k].discard))
 //@   modifies rec.data, rec.groups, elems(rec.data), elems(rec.groups)
 //@   loop 0 invariant [C04,C05] i < j && j <= len(rec.groups)
 //@   loop 1 invariant [C04,C05] -1 <= rangeindex && rangeindex < len(rec.groups)
@@ -855,8 +858,28 @@ package rapid
 //@   requires [C04,C05] rec.persist && recWF(rec)
 //@   ensures [C04,C05] len(rec.data) <= old(len(rec.data)) && implies(len(rec.data) == old(len(rec.data)), forall(k, 0, len(rec.data), rec.data[k] == old(rec.data[k])))
 //@   ensures [C04,C05] recWF(rec) && rec.persist
-//@   panics string [C04]: true
 //@   modifies rec.data, rec.groups, elems(rec.data), elems(rec.groups)
+//@   loop 0 invariant [C04,C05] forall(k, 0, i, !rec.groups[k].discard)
 //@   loop 0 invariant [C04,C05] 0 <= i && recWF(rec) && rec.persist && len(rec.data) <= old(len(rec.data)) && implies(len(rec.data) == old(len(rec.data)), forall(k, 0, len(rec.data), rec.data[k] == old(rec.data[k])))
 //@   loop 0 decreases len(rec.groups) - i
-//@   loop 1 invariant [C04,C05] -1 <= rangeindex && rangeindex < len(rec.groups)
+//@   loop 1 invariant [C04,C05] -1 <= rangeindex && rangeindex < len(rec.groups) && recWF(rec) && forall(k, 0, len(rec.groups), !rec.groups[k].discard)
+
+// ---------------------------------------------------------------------------------------------
+// The shrinker (C01, C05)
+
+//@ define tbOf(e) = ite(e == nil, "    <no error>\n", e.traceback)
+//@ define lessData(a, b) = len(a) < len(b) || len(a) == len(b) && exists(k, 0, len(a), a[k] < b[k] && forall(m, 0, k, a[m] == b[m]))
+//@ define shrInv(s) = s.prop != nil && s.err != nil && s.err.traceback != "    <no error>\n" && s.rec.persist && recWF(addr(s.rec))
+
+//@ func (*shrinker).accept
+//@   noframe "runs the property"
+//@   assumes-pre !flags.debugvis
+//@   requires [C01,C05] shrInv(s)
+//@   ensures [C01,C05] s.prop != nil && s.err != nil && s.err.traceback != "    <no error>\n" && s.rec.persist && recWF(addr(s.rec))
+//@   ensures [C05] implies(!result, s.err == old(s.err) && arr(s.rec.data) == old(arr(s.rec.data)) && off(s.rec.data) == old(off(s.rec.data)) && len(s.rec.data) == old(len(s.rec.data)) && s.shrinks == old(s.shrinks))
+//@   ensures [C01] implies(result, s.err == now(err1) && now(err1) != nil)
+//@   ensures [C05] implies(result, tbOf(s.err) == tbOf(old(s.err)) && s.shrinks == old(s.shrinks) + 1)
+//@   ensures [C05] implies(result, old(lessData(buf, s.rec.data)))
+//@   ensures [C05] implies(result, len(s.rec.data) <= len(buf))
+//@   panics testError [C01]: refOf(panicval) == now(err2)
+//@   modifies heap, drawn, lockmode, cancelled
